@@ -89,6 +89,17 @@ def gen_cases(tier, seed):
                       'dims': [4, 4] if spin else list(r.choice([(2, 2), (2, 3),
                                                                  (3, 2)])),
                       'mseed': r.randrange(1 << 30)})
+    # non-flat input: a sum as a factor, deltas inside sums / powers of sums (the
+    # documented behaviour: such deltas are not evaluated; the value is kept)
+    for q in range(16 if tier == 'quick' else 120):
+        sp = r.choice(['occ', 'virt', 'general'])
+        nm = {'occ': 'ijkl', 'virt': 'abcd', 'general': 'pqrs'}[sp]
+        cases.append({'id': f'C09-{tier[0]}{seed}-poly{q:03d}', 'mode': 'poly',
+                      'shape': r.choice(['A', 'A', 'B', 'D', 'E']),
+                      'names': list(nm), 'explicit': r.random() < 0.6,
+                      'as_str': r.random() < 0.5,
+                      'dims': list(r.choice([(2, 2), (2, 3), (3, 2)])),
+                      'mseed': r.randrange(1 << 30)})
     for name in ['gs_energy_2', 'isr_block_pp_1', 's_root_pp', 'mvp_ip',
                  'diag_fock']:
         cases.append({'id': f'C09-{tier[0]}{seed}-pipe-{name}',
@@ -190,9 +201,58 @@ def check_call(term, targets, result, model, res_violation, label):
     return 'ok'
 
 
+def run_poly(case, res):
+    from adcgen import evaluate_deltas
+    from adcgen.sympy_objects import KroneckerDelta, NonSymmetricTensor
+    from .. import tm
+    i, j, k, l = [ir.mk_index(x) for x in case['names']]
+
+    def T(name, *idx):
+        return NonSymmetricTensor(name, idx)
+    d = KroneckerDelta
+    shape = case['shape']
+    if shape == 'A':      # sum as a factor
+        term = T('w', j) * (d(i, j) * T('y', j) + T('z', i, j))
+    elif shape == 'B':    # power of a sum
+        term = (d(i, j) + T('x', i, j)) ** 2 * T('y', j)
+    elif shape == 'D':    # a flat delta next to the sum
+        term = T('w', j) * (d(i, j) * T('y', j) + T('z', i, j)) * d(j, k) \
+            * T('v', k)
+    else:                 # two flat deltas and a sum holding a third
+        term = T('w', j, k) * d(j, l) * d(k, l) * (d(i, l) * T('y', l)
+                                                  + T('z', i, l))
+    targets = [i]
+    kw = {}
+    if case['explicit']:
+        kw['target_idx'] = 'i' if case['as_str'] and len(i.name) == 1 else \
+            (i.name if case['as_str'] else (i,))
+    n_o, n_v = case['dims']
+    model = tm.Model(n_o, n_v, seed=case['mseed'])
+    ev = tm.Evaluator(model)
+    out = lib_call(evaluate_deltas, term, **kw)
+    res.count('direct_calls')
+    res.count('nonflat_inputs')
+    v0, v1 = ev.value(term, targets), ev.value(out, targets)
+    res.count('points_compared', int(v0.size))
+    res.nontrivial = True
+    res.fingerprint = fp('poly', shape, case['names'][0], case['explicit'],
+                         case['as_str'])
+    res.observed = {'input': str(term)[:200], 'output': str(out)[:200]}
+    if not np.array_equal(v0, v1):
+        res.violation(f'evaluate_deltas({term}, {kw}) = {out} changes the value '
+                      f'(target {i})')
+        return
+    if i not in tm.count_indices(out.expand().args[0] if out.expand().is_Add
+                                 else out):
+        res.violation(f'evaluate_deltas({term}, {kw}) = {out} lost the target '
+                      f'index {i}')
+
+
 def run_case(case, res):
     if case['mode'] == 'pipeline':
         return run_pipeline(case, res)
+    if case['mode'] == 'poly':
+        return run_poly(case, res)
     from adcgen import evaluate_deltas
     from sympy import S
     from .. import tm
